@@ -564,3 +564,45 @@ val sym_eqb_list : nat list -> nat list -> bool
 val replay :
   grammar -> semact -> (nat * z) list -> tok list -> nat -> (nat * nat) list
   -> z option
+
+type step =
+| SLex
+| SSyntax
+| SVisit
+| SBuild
+| SConst
+| SUnion
+| STable
+| SState
+| SReduce
+| STranslate
+| SCreate
+| SWrite
+
+val step_eqb : step -> step -> bool
+
+val gen_steps : step list
+
+type ('content, 'path) fs = 'path -> 'content option
+
+val upd0 :
+  ('a2 -> 'a2 -> bool) -> ('a1, 'a2) fs -> 'a2 -> 'a1 option -> ('a1, 'a2) fs
+
+type outcome =
+| Success
+| Failed of step
+
+val run_steps :
+  ('a2 -> 'a2 -> bool) -> step list -> (step -> bool) -> ('a1, 'a2) fs -> 'a2
+  -> 'a1 -> 'a1 -> ('a1, 'a2) fs * outcome
+
+val run_gen :
+  ('a2 -> 'a2 -> bool) -> (step -> bool) -> ('a1, 'a2) fs -> 'a2 -> 'a1 ->
+  'a1 -> ('a1, 'a2) fs * outcome
+
+type tagc =
+| Old
+| Empty
+| New
+
+val predict : step option -> tagc option
